@@ -1,5 +1,6 @@
 """C15: fixed-layout suggestions are prefix completions of what was typed."""
 import obl_assembly as A
+import obl_fixed
 import obl_kani
 
 
@@ -12,5 +13,10 @@ def run(c):
     A.obl_regex_hygiene(c, 3 if c.tier == "quick" else 4, budget_s=900)
     A.obl_fixed_search(c, thorough=(c.tier == "thorough"), budget_s=900)
     A.obl_fixed_assembly(c, thorough=(c.tier == "thorough"), budget_s=1200)
+    # the assembly takes the raw keys as given; that they are the keys of the word in progress is the session invariant
+    if c.tier == "quick":
+        obl_fixed.obl_session_fixed(c, 2, 2, 1, budget_s=900)
+    else:
+        obl_fixed.obl_session_fixed(c, 3, 3, 2, budget_s=3000)
     c.outside("that every regex match over the 159k-word dictionary starts with the typed word (regex engine contract given the anchored, "
               "meta-free pattern that `regex_hygiene` establishes); the first-letter table content")
